@@ -34,6 +34,7 @@ W int v_snprintf(char *b, size_t n, const char *f, ...) { va_list ap; int r; va_
 W FILE *v_fopen(const char *p, const char *m) { return fopen(p, m); }
 W int v_fclose(FILE *f) { return fclose(f); }
 W int v_fflush(FILE *f) { return fflush(f); }
+W int v_setvbuf(FILE *f, char *b, int m, size_t n) { return setvbuf(f, b, m, n); }
 W int v_vfprintf(FILE *f, const char *fmt, va_list ap) { return vfprintf(f, fmt, ap); }
 W int v_fprintf(FILE *f, const char *fmt, ...) { va_list ap; int r; va_start(ap, fmt); r = vfprintf(f, fmt, ap); va_end(ap); return r; }
 W int v_printf(const char *fmt, ...) { va_list ap; int r; va_start(ap, fmt); r = vfprintf(stdout, fmt, ap); va_end(ap); return r; }
